@@ -1,355 +1,2 @@
-(* GENERATED by harness/cmd/genconsts from the current /repo source. Do not edit. *)
-From Coq Require Import List ZArith NArith.
-From Coq.Strings Require Import Byte.
-Import ListNotations.
-
-(* lockedfile and lockedfile/internal/filelock translated by harness/go2coq in world mode
-   (table: harness/cmd/genconsts/gen_lockedfile_src.go).
-   Functions: fl_lockType_String, fl_lock, fl_unlock, fl_Lock, fl_RLock, fl_Unlock, lf_closeFile, lf_openFile, lf_OpenFile, lf_Open, lf_Create, lf_Edit, lf_File_Close, lf_Read, lf_Write, lf_Transform, lf_Mutex_Lock, lf_Mutex_Lock_lit.
-   Vocabulary: Lib/GoSem.v, Lib/GoSemWorld.v, LockedFile/SrcLib.v (the record of operations OS). *)
-From Coq Require Import Bool.
-From GI Require Import Lib.Bytes Lib.GoSem Lib.GoSemWorld LockedFile.SrcLib.
-Import GoNotations.
-Local Open Scope go_scope.
-
-Section Src.
-Variable OS : os_ops.
-
-(* type osFile struct *)
-Record lf_osFile : Type := lf_mk_osFile { lf_osFile_File : (Handle OS) }.
-
-(* type File struct *)
-Record lf_File : Type := lf_mk_File { lf_File_osFile : lf_osFile; lf_File_closed : bool }.
-
-(* type Mutex struct *)
-Record lf_Mutex : Type := lf_mk_Mutex { lf_Mutex_Path : bytes; lf_Mutex_mu : bool }.
-
-(* func lockType.String *)
-Definition fl_lockType_String (v_lt : Z)
-  : res bytes :=
-  let t1 := v_lt in
-  if (t1 =? 1%Z)%Z then
-    Ok [x52; x4c; x6f; x63; x6b]
-  else
-    if (t1 =? 2%Z)%Z then
-      Ok [x4c; x6f; x63; x6b]
-    else
-      Ok [x55; x6e; x6c; x6f; x63; x6b].
-
-(* func lock: for-loop 1 *)
-Fixpoint fl_lock_loop1 {L : Type} (fuel n : nat) (v_f : (Handle OS)) (v_lt : Z) (w : (World OS)) (v_err : werr) {struct n}
-  : res (outcome ((World OS) * werr)%type L ((World OS) * werr)%type) :=
-  match n with
-  | O => OutOfFuel
-  | S n' =>
-      bindL (
-        let '(w, t1) := (sys_flock OS) w ((h_fd OS) v_f) v_lt in
-        let v_err : werr := t1 in
-        if (negb (werr_eqb v_err werr_EINTR)) then
-          Ok (Break (w, v_err))
-        else
-        Ok (Normal (w, v_err))
-      ) (fun '(w, v_err) =>
-      fl_lock_loop1 fuel n' v_f v_lt w v_err)
-  end.
-
-(* func lock *)
-Definition fl_lock (fuel : nat) (w : (World OS)) (v_f : (Handle OS)) (v_lt : Z)
-  : res ((World OS) * werr)%type :=
-  let v_err : werr := WNil in
-  bindT (fl_lock_loop1 fuel fuel v_f v_lt w v_err) (fun '(w, v_err) =>
-  if (negb (werr_is_nil v_err)) then
-    t2 <- fl_lockType_String v_lt ;;
-    Ok (w, (WMade [x69; x6f; x2f; x66; x73; x2e; x50; x61; x74; x68; x45; x72; x72; x6f; x72] [t2; ((h_name OS) v_f)] v_err))
-  else
-  Ok (w, WNil)).
-
-(* func unlock *)
-Definition fl_unlock (fuel : nat) (w : (World OS)) (v_f : (Handle OS))
-  : res ((World OS) * werr)%type :=
-  '(w, t1) <- fl_lock fuel w v_f 8%Z ;;
-  Ok (w, t1).
-
-(* func Lock *)
-Definition fl_Lock (fuel : nat) (w : (World OS)) (v_f : (Handle OS))
-  : res ((World OS) * werr)%type :=
-  '(w, t1) <- fl_lock fuel w v_f 2%Z ;;
-  Ok (w, t1).
-
-(* func RLock *)
-Definition fl_RLock (fuel : nat) (w : (World OS)) (v_f : (Handle OS))
-  : res ((World OS) * werr)%type :=
-  '(w, t1) <- fl_lock fuel w v_f 1%Z ;;
-  Ok (w, t1).
-
-(* func Unlock *)
-Definition fl_Unlock (fuel : nat) (w : (World OS)) (v_f : (Handle OS))
-  : res ((World OS) * werr)%type :=
-  '(w, t1) <- fl_unlock fuel w v_f ;;
-  Ok (w, t1).
-
-(* func closeFile *)
-Definition lf_closeFile (fuel : nat) (w : (World OS)) (v_f : (Handle OS))
-  : res ((World OS) * werr)%type :=
-  '(w, t1) <- fl_Unlock fuel w v_f ;;
-  let v_err : werr := t1 in
-  let '(w, t2) := (os_close OS) w v_f in
-  let v_closeErr : werr := t2 in
-  v_err <- (if (werr_is_nil v_err) then
-    let v_err : werr := v_closeErr in
-    Ok v_err
-  else
-    Ok v_err
-  ) ;;
-  Ok (w, v_err).
-
-(* func openFile *)
-Definition lf_openFile (fuel : nat) (w : (World OS)) (v_name : bytes) (v_flag : Z) (v_perm : Z)
-  : res ((World OS) * (Handle OS) * werr)%type :=
-  let '(w, t1, t2) := (os_open OS) w v_name (Z.ldiff v_flag 512%Z) v_perm in
-  let v_f : (Handle OS) := t1 in
-  let v_err : werr := t2 in
-  if (negb (werr_is_nil v_err)) then
-    Ok (w, (nil_handle OS), v_err)
-  else
-  let t3 := (Z.land v_flag 3%Z) in
-  '(w, v_err) <- (if ((t3 =? 1%Z)%Z || (t3 =? 2%Z)%Z) then
-    '(w, t4) <- fl_Lock fuel w v_f ;;
-    let v_err : werr := t4 in
-    Ok (w, v_err)
-  else
-    '(w, t5) <- fl_RLock fuel w v_f ;;
-    let v_err : werr := t5 in
-    Ok (w, v_err)
-  ) ;;
-  if (negb (werr_is_nil v_err)) then
-    let '(w, t6) := (os_close OS) w v_f in
-    Ok (w, (nil_handle OS), v_err)
-  else
-  bindT (if ((Z.land v_flag 512%Z) =? 512%Z)%Z then
-    let '(w, t7) := (os_ftruncate OS) w v_f 0%Z in
-    let v_err_1 : werr := t7 in
-    bindO (if (negb (werr_is_nil v_err_1)) then
-      let '(t8, t9) := (os_fstat OS) w v_f in
-      let v_fi : (FileInfo OS) := t8 in
-      let v_statErr : werr := t9 in
-      if ((negb (werr_is_nil v_statErr)) || ((fm_is_regular OS) ((fi_mode OS) v_fi))) then
-        '(w, t10) <- fl_Unlock fuel w v_f ;;
-        let '(w, t11) := (os_close OS) w v_f in
-        Ok (Return (w, (nil_handle OS), v_err_1))
-      else
-      Ok (Normal w)
-    else
-      Ok (Normal w)
-    ) (fun w =>
-    Ok (Normal w))
-  else
-    Ok (Normal w)
-  ) (fun w =>
-  Ok (w, v_f, WNil)).
-
-(* func OpenFile *)
-Definition lf_OpenFile (fuel : nat) (w : (World OS)) (v_name : bytes) (v_flag : Z) (v_perm : Z)
-  : res ((World OS) * (option lf_File) * werr)%type :=
-  let v_f : (option lf_File) := (Some (lf_mk_File (lf_mk_osFile (nil_handle OS)) false)) in
-  let v_err : werr := WNil in
-  '(w, t1, t2) <- lf_openFile fuel w v_name v_flag v_perm ;;
-  t3 <- go_deref v_f ;;
-  let v_f : option lf_File := Some (lf_mk_File (lf_mk_osFile t1) (lf_File_closed t3)) in
-  let v_err : werr := t2 in
-  if (negb (werr_is_nil v_err)) then
-    Ok (w, None, v_err)
-  else
-  (* runtime.SetFinalizer(...): no effect on the denoted state (table) *)
-  Ok (w, v_f, WNil).
-
-(* func Open *)
-Definition lf_Open (fuel : nat) (w : (World OS)) (v_name : bytes)
-  : res ((World OS) * (option lf_File) * werr)%type :=
-  '(w, t1, t2) <- lf_OpenFile fuel w v_name 0%Z 0%Z ;;
-  Ok (w, t1, t2).
-
-(* func Create *)
-Definition lf_Create (fuel : nat) (w : (World OS)) (v_name : bytes)
-  : res ((World OS) * (option lf_File) * werr)%type :=
-  '(w, t1, t2) <- lf_OpenFile fuel w v_name 578%Z 438%Z ;;
-  Ok (w, t1, t2).
-
-(* func Edit *)
-Definition lf_Edit (fuel : nat) (w : (World OS)) (v_name : bytes)
-  : res ((World OS) * (option lf_File) * werr)%type :=
-  '(w, t1, t2) <- lf_OpenFile fuel w v_name 66%Z 438%Z ;;
-  Ok (w, t1, t2).
-
-(* func File.Close *)
-Definition lf_File_Close (fuel : nat) (w : (World OS)) (v_f : lf_File)
-  : res ((World OS) * lf_File * werr)%type :=
-  if (lf_File_closed v_f) then
-    Ok (w, v_f, (WMade [x69; x6f; x2f; x66; x73; x2e; x50; x61; x74; x68; x45; x72; x72; x6f; x72] [[x63; x6c; x6f; x73; x65]; ((h_name OS) (lf_osFile_File (lf_File_osFile v_f)))] werr_ErrClosed))
-  else
-  let v_f : lf_File := (lf_mk_File (lf_File_osFile v_f) true) in
-  '(w, t1) <- lf_closeFile fuel w (lf_osFile_File (lf_File_osFile v_f)) ;;
-  let v_err : werr := t1 in
-  (* runtime.SetFinalizer(...): no effect on the denoted state (table) *)
-  Ok (w, v_f, v_err).
-
-(* func Read *)
-Definition lf_Read (fuel : nat) (w : (World OS)) (v_name : bytes)
-  : res ((World OS) * bytes * werr)%type :=
-  '(w, t1, t2) <- lf_Open fuel w v_name ;;
-  let v_f : (option lf_File) := t1 in
-  let v_err : werr := t2 in
-  if (negb (werr_is_nil v_err)) then
-    Ok (w, [], v_err)
-  else
-  '(w, t3, t4) <- (
-    t5 <- go_deref v_f ;;
-    let '(w, t6, t7) := (os_read_all OS) w (lf_osFile_File (lf_File_osFile t5)) in
-    Ok (w, t6, t7)
-  ) ;;
-  t8 <- go_deref v_f ;;
-  '(w, t9, t10) <- lf_File_Close fuel w t8 ;;
-  let v_f := Some t9 in
-  Ok (w, t3, t4).
-
-(* func Write *)
-Definition lf_Write (fuel : nat) (w : (World OS)) (v_name : bytes) (v_content : reader) (v_perm : Z)
-  : res ((World OS) * werr)%type :=
-  let v_err : werr := WNil in
-  '(w, t1, t2) <- lf_OpenFile fuel w v_name 577%Z v_perm ;;
-  let v_f : (option lf_File) := t1 in
-  let v_err : werr := t2 in
-  if (negb (werr_is_nil v_err)) then
-    Ok (w, v_err)
-  else
-  t3 <- go_deref v_f ;;
-  let '(w, t4, t5) := (io_copy OS) w (lf_osFile_File (lf_File_osFile t3)) v_content in
-  let v_err : werr := t5 in
-  t6 <- go_deref v_f ;;
-  '(w, t7, t8) <- lf_File_Close fuel w t6 ;;
-  let v_f := Some t7 in
-  let v_closeErr : werr := t8 in
-  v_err <- (if (werr_is_nil v_err) then
-    let v_err : werr := v_closeErr in
-    Ok v_err
-  else
-    Ok v_err
-  ) ;;
-  Ok (w, v_err).
-
-(* func Transform *)
-Definition lf_Transform (fuel : nat) (w : (World OS)) (v_name : bytes) (v_t : (bytes -> (bytes * werr)%type))
-  : res ((World OS) * werr)%type :=
-  let v_err : werr := WNil in
-  '(w, t1, t2) <- lf_Edit fuel w v_name ;;
-  let v_f : (option lf_File) := t1 in
-  let v_err : werr := t2 in
-  if (negb (werr_is_nil v_err)) then
-    Ok (w, v_err)
-  else
-  '(w, v_err) <- (
-    t3 <- go_deref v_f ;;
-    let '(w, t4, t5) := (os_read_all OS) w (lf_osFile_File (lf_File_osFile t3)) in
-    let v_old : bytes := t4 in
-    let v_err : werr := t5 in
-    if (negb (werr_is_nil v_err)) then
-      Ok (w, v_err)
-    else
-    let '(t6, t7) := v_t v_old in
-    let v_new : bytes := t6 in
-    let v_err : werr := t7 in
-    if (negb (werr_is_nil v_err)) then
-      Ok (w, v_err)
-    else
-    bindT (if ((len v_new) >? (len v_old))%Z then
-      t8 <- go_deref v_f ;;
-      t9 <- go_slice v_new (len v_old) (len v_new) ;;
-      let '(w, t10, t11) := (file_write_at OS) w (lf_osFile_File (lf_File_osFile t8)) t9 (len v_old) in
-      let v_err_1 : werr := t11 in
-      if (negb (werr_is_nil v_err_1)) then
-        t12 <- go_deref v_f ;;
-        let '(w, t13) := (os_ftruncate OS) w (lf_osFile_File (lf_File_osFile t12)) (len v_old) in
-        Ok (Return (w, v_err_1))
-      else
-      Ok (Normal w)
-    else
-      Ok (Normal w)
-    ) (fun w =>
-    '(w, v_err) <- (
-      bindT (if ((len v_new) >=? (len v_old))%Z then
-        t14 <- go_deref v_f ;;
-        t15 <- go_slice v_new 0%Z (len v_old) ;;
-        let '(w, t16, t17) := (file_write_at OS) w (lf_osFile_File (lf_File_osFile t14)) t15 0%Z in
-        let v_err_3 : werr := t17 in
-        if (negb (werr_is_nil v_err_3)) then
-          Ok (Return (w, v_err_3))
-        else
-        Ok (Normal w)
-      else
-        t18 <- go_deref v_f ;;
-        let '(w, t19, t20) := (file_write_at OS) w (lf_osFile_File (lf_File_osFile t18)) v_new 0%Z in
-        let v_err_4 : werr := t20 in
-        if (negb (werr_is_nil v_err_4)) then
-          Ok (Return (w, v_err_4))
-        else
-        t21 <- go_deref v_f ;;
-        let '(w, t22) := (os_ftruncate OS) w (lf_osFile_File (lf_File_osFile t21)) (len v_new) in
-        let v_err_5 : werr := t22 in
-        if (negb (werr_is_nil v_err_5)) then
-          Ok (Return (w, v_err_5))
-        else
-        Ok (Normal w)
-      ) (fun w =>
-      Ok (w, WNil))
-    ) ;;
-    w <- (if (negb (werr_is_nil v_err)) then
-      t23 <- go_deref v_f ;;
-      let '(w, t24, t25) := (file_write_at OS) w (lf_osFile_File (lf_File_osFile t23)) v_old 0%Z in
-      let v_err_2 : werr := t25 in
-      w <- (if (werr_is_nil v_err_2) then
-        t26 <- go_deref v_f ;;
-        let '(w, t27) := (os_ftruncate OS) w (lf_osFile_File (lf_File_osFile t26)) (len v_old) in
-        Ok w
-      else
-        Ok w
-      ) ;;
-      Ok w
-    else
-      Ok w
-    ) ;;
-    Ok (w, v_err))
-  ) ;;
-  t28 <- go_deref v_f ;;
-  '(w, t29, t30) <- lf_File_Close fuel w t28 ;;
-  let v_f := Some t29 in
-  Ok (w, v_err).
-
-(* func Mutex.Lock: the function literal it returns, as a function of what it captures *)
-Definition lf_Mutex_Lock_lit (fuel : nat) (w : (World OS)) (v_mu : lf_Mutex) (v_f : (option lf_File))
-  : res ((World OS) * lf_Mutex * (option lf_File))%type :=
-  t1 <- go_sync_Unlock (lf_Mutex_mu v_mu) ;;
-  let v_mu : lf_Mutex := (lf_mk_Mutex (lf_Mutex_Path v_mu) t1) in
-  t2 <- go_deref v_f ;;
-  '(w, t3, t4) <- lf_File_Close fuel w t2 ;;
-  let v_f := Some t3 in
-  Ok (w, v_mu, v_f).
-
-(* func Mutex.Lock *)
-Definition lf_Mutex_Lock (fuel : nat) (w : (World OS)) (v_mu : lf_Mutex)
-  : res ((World OS) * lf_Mutex * (option (option lf_File)) * werr)%type :=
-  let v_unlock : (option (option lf_File)) := None in
-  let v_err : werr := WNil in
-  if (bytes_eqb (lf_Mutex_Path v_mu) []) then
-    Panic
-  else
-  '(w, t1, t2) <- lf_OpenFile fuel w (lf_Mutex_Path v_mu) 66%Z 438%Z ;;
-  let v_f : (option lf_File) := t1 in
-  let v_err : werr := t2 in
-  if (negb (werr_is_nil v_err)) then
-    Ok (w, v_mu, None, v_err)
-  else
-  t3 <- go_sync_Lock (lf_Mutex_mu v_mu) ;;
-  let v_mu : lf_Mutex := (lf_mk_Mutex (lf_Mutex_Path v_mu) t3) in
-  Ok (w, v_mu, (Some v_f), WNil).
-
-End Src.
+(* NOT GENERATED: harness/cmd/genconsts could not translate the current source:
+   lockedfile: lockedfile/lockedfile.go:139:8: call of github.com/rogpeppe/go-internal/lockedfile.transform, which is not among the translated functions *)
